@@ -2,7 +2,8 @@
    line/plane intersection, planes.  tr_* / pc_* regenerated from /repo on every run.
    The model mirrors the code as it is; where the code violates the property the full statement is kept in a comment
    and a `_refuted` witness + a `_partial` guarded statement are proved (each `_refuted` witness is replayed on the
-   implementation by props/C19.py and is a known finding). *)
+   implementation by props/C19.py and is a known finding).  Four such pairs remain; Plane.contains was repaired in
+   /repo (82519e9) and now has the full-strength theorem. *)
 From Coq Require Import Reals ZArith Lra Lia Nsatz Psatz.
 From SM Require Import Base.Ops Base.Lin Base.RInst Base.RLin.
 From SMgen Require Import Traces_C19.
@@ -280,28 +281,35 @@ Theorem C19_PlanePN_contains_point : forall p n : V3 R,
 Proof. intros. destruct_tuples. unf2. split; [ring | tuple_eq ltac:(ring)]. Qed.
 Print Assumptions C19_PlanePN_contains_point.
 
-(* Plane.contains tests |n.x - d| (the opposite sign convention) *)
-Theorem C19_Plane_contains_residual : forall (a : V4 R) (x p n : V3 R),
-  tr_Plane_contains_res Rops a x = Rabs (plane_res a x - 2 * (let '(_,_,_,d) := a in d)) /\
-  tr_Plane_contains_res Rops (tr_PlanePN Rops p n) p = Rabs (2 * dot3 Rops n p).
-Proof. intros. destruct_tuples. unf2. split; f_equal; ring. Qed.
+(* Plane.contains compares |n.x + d| with its tolerance: the plane equation of the constructors
+   (repaired by /repo commit 82519e9; before it the residual was |n.x - d| and this was a _refuted/_partial pair) *)
+Theorem C19_Plane_contains_residual : forall (a : V4 R) (x : V3 R),
+  tr_Plane_contains_res Rops a x = Rabs (plane_res a x) /\
+  (tr_Plane_contains_res Rops a x = 0 <-> plane_res a x = 0).
+Proof.
+  intros. destruct_tuples. unf2.
+  match goal with |- Rabs ?e = Rabs ?f /\ _ => assert (E : e = f) by ring; rewrite E; clear E; generalize f end.
+  intros z. split; [reflexivity|]. split; intros H.
+  - destruct (Req_dec z 0) as [Hz|Hz]; [exact Hz|]. apply Rabs_no_R0 in Hz. contradiction.
+  - rewrite H. apply Rabs_R0.
+Qed.
 Print Assumptions C19_Plane_contains_residual.
 
-(* FULL STATEMENT (false of the code as it is):  forall p n, tr_Plane_contains_res (tr_PlanePN p n) p = 0 *)
-Theorem C19_Plane_contains_defining_point_refuted : exists p n : V3 R,
-  tr_Plane_contains_res Rops (tr_PlanePN Rops p n) p <> 0.
-Proof.
-  exists (1,0,0), (1,0,0). rewrite (proj2 (C19_Plane_contains_residual (0,0,0,0) (0,0,0) (1,0,0) (1,0,0))).
-  unf2. replace (2 * (1*1+0*0+0*0)) with 2 by ring. rewrite Rabs_right by lra. lra.
-Qed.
-Print Assumptions C19_Plane_contains_defining_point_refuted.
-
-Theorem C19_Plane_contains_defining_point_partial : forall p n : V3 R, dot3 Rops n p = 0 ->
+(* plane membership of the point a plane was built from: full statement *)
+Theorem C19_Plane_contains_defining_point : forall p n : V3 R,
   tr_Plane_contains_res Rops (tr_PlanePN Rops p n) p = 0.
 Proof.
-  intros p n H. rewrite (proj2 (C19_Plane_contains_residual (0,0,0,0) (0,0,0) p n)), H, Rmult_0_r. apply Rabs_R0.
+  intros p n. apply (proj2 (C19_Plane_contains_residual _ _)). apply (proj1 (C19_PlanePN_contains_point p n)).
 Qed.
-Print Assumptions C19_Plane_contains_defining_point_partial.
+Print Assumptions C19_Plane_contains_defining_point.
+
+(* ... and of every point of the plane through p with normal n, and of no other point *)
+Theorem C19_Plane_contains_iff : forall p n x : V3 R,
+  tr_Plane_contains_res Rops (tr_PlanePN Rops p n) x = 0 <-> dot3 Rops n (vsub3 Rops x p) = 0.
+Proof.
+  intros p n x. rewrite (proj2 (C19_Plane_contains_residual _ _)). destruct_tuples. unf2. split; intros H; lra.
+Qed.
+Print Assumptions C19_Plane_contains_iff.
 
 (* non-vacuity of the hypotheses used in this file: two skew lines with perpendicular unit directions,
    a plane that cuts the first *)
@@ -311,7 +319,7 @@ Example C19_c_nonvacuous :
   normsq3 Rops (lw L) = 1 /\ normsq3 Rops (lw M) = 1 /\ dot3 Rops (lw L) (lw M) = 0 /\
   0 < pc_recip_0 Rops L M /\ 0 < pc_recip_1 Rops L M /\ 0 < pc_eq_0 Rops L (scale6 2 L) /\ 0 < pc_eq_1 Rops L (scale6 2 L) /\
   0 < pc_ip_0 Rops L (-1,0,0,2) /\ dot3 Rops (lw L) (pn (-1,0,0,2)) = - sqrt (normsq3 Rops (lw L)) /\
-  dot3 Rops (1,0,0) (0,5,0) = 0 /\ tr_distance Rops L M = 1.
+  tr_distance Rops L M = 1.
 Proof.
   unfold cp_path, dist_path. unf2. abs_sqrt. lit_sqrt.
   repeat match goal with |- context [Rabs ?E] => progress (replace E with 1 by field) end.
